@@ -27,6 +27,8 @@ def main(tier, seed):
     progs = scenarios.fiber_scenarios(rng, 1500 if tier == "quick" else 25000, nfib=3)
     profcheck.run_scenarios(rep, "fibers", progs, bins, PROP)
     profcheck.run_scenarios(rep, "switchcontexts", scenarios.fiber_switch_context_scenarios(), bins, PROP)
+    # misuse: a fiber anywhere up the chain of waiting fibers is called again from the innermost one
+    profcheck.run_scenarios(rep, "reentry", scenarios.fiber_reentry_scenarios(), bins, PROP)
     # "each fiber keeps its own ... variables": closures over a suspended scope's variables, written and read from both sides of the switch
     profcheck.run_scenarios(rep, "captureswitch", scenarios.capture_across_switch_scenarios(), bins, PROP)
     # a completion waiting in a finally block belongs to the fiber that is suspended there (its exception, where it was raised, its handlers)
